@@ -388,6 +388,20 @@ Insert(pre, a, r, post) ==
      \/ r.kind \in {"Skipped", "Err"} /\ InsertRefused(pre, a, r, post)
                                       /\ StackOrBootstrap(post, post.cfg.g)
 
+\* C09 probe at the STORED position of an existing vertex `a.of` (exact bit copy, or a copy displaced
+\* by 2^-36 < tolerance, or by 2^-30 > tolerance), fresh uuid
+InsertCopy(pre, a, r, post) ==
+  /\ Chk("C02.still the same object", post.live /\ post.D = pre.D)
+  /\ \/ /\ a.cls \in {"copy", "nearcopy"} /\ a.of \in VIds(pre)
+        /\ Chk("C09.copy of a present vertex not refused as a coordinate duplicate",
+               r.kind \in {"Skipped", "Err"} /\ r.err = "DuplicateCoordinates")
+        /\ Chk("C03.refused insert leaves state unchanged", Obs(post) = Obs(pre))
+     \/ /\ a.cls = "farcopy" /\ a.of \in VIds(pre)
+        /\ Chk("C09.point outside the tolerance refused as a duplicate", r.err # "DuplicateCoordinates")
+        /\ Chk("C03.refused insert leaves state unchanged", r.kind = "Inserted" \/ Obs(post) = Obs(pre))
+        /\ StackOrBootstrap(post, post.cfg.g)
+     \/ /\ a.of \notin VIds(pre)
+
 \* ---- C06 : vertex removal ------------------------------------------------
 Remove(pre, a, r, post) ==
   \/ /\ r.kind = "Ok" /\ a.v \in VIds(pre)
